@@ -29,7 +29,7 @@ fn main() {
         "overflow" => engine_overflow(&args),
         #[cfg(feature = "full")]
         "serde" => engine_serde(&args),
-        "ovrace" => overflow::race_child(args.u64("entry", 0) as usize, args.u64("phase", 9) as u8),
+        "ovrace" => overflow::race_child(args.u64("entry", 0) as usize, args.u64("phase", 9) as u8, args.u64("start", isize::MAX as u64) as usize),
         "ovchild" => overflow::child(args.u64("entry", 0) as usize, args.u64("start", 1) as usize),
         "allocchild" => {
             faults::alloc_child(args.u64("site", 0) as usize, args.u64("nth", 1) as i64)
